@@ -12,6 +12,7 @@
 static struct nv_lview nv_lview_slice4(struct nv_lview v, struct nv_range r)
 { __CPROVER_assert(v.b == -1 && v.row == -1 && 0 <= r.b && r.b <= r.e && r.e <= v.t->rows, "tensor4d_map_t::slice(range): inside the first dimension (C16)"); v.b = r.b; v.e = r.e; return v; }
 
+static struct nv_range nv_range_make(int64_t b, int64_t e) { struct nv_range r; r.b = b; r.e = e; return r; }   /* make_range / tensor_range_t{b, e} */
 #define NV_DP_SAMPLES NV_ARG_linear_do_predict_2
 #define NV_DP_OUT NV_ARG_linear_do_predict_3
 #define NV_CONTRACT_linear_do_predict \
